@@ -462,6 +462,27 @@ func (c *Ctx) ruleWorkDone(rule string) {
 					}
 					return (bo.Op == token.NEQ) == cond.True
 				}
+				// the sibling: the output data. Every output is an object; a map cut short behind the output ID decodes
+				// into a message with an output ID and no data.
+				k2 := key(rule, c.M.Key(fn), sprintf("success result #%d only for a message with output data", cnt))
+				est2 := func(cond core.Cond) bool {
+					v, neq, isNil := core.NilCmp(cond.V)
+					if !isNil || neq != cond.True {
+						return false
+					}
+					ld, ok := core.Unwrap(v).(*ssa.UnOp)
+					if !ok {
+						return false
+					}
+					ofa, ok := ld.X.(*ssa.FieldAddr)
+					return ok && isMsg(ofa.X.Type()) && fieldName(ofa.X.Type(), ofa.Field) == "OutputData"
+				}
+				if core.MustHold(fn, est2)[b] {
+					c.R.Ok(rule, k2, c.M.InstrPos(st), "success result built from a work-done message", "on every path the message's output data was found non-nil")
+				} else {
+					c.R.Bad(rule, k2, c.M.InstrPos(st), "a work-done message without output data is turned into a success result",
+						"a message whose map header was shortened behind the output ID (one changed bit) decodes without error: Execute reports success with the right output ID and nil data for a run whose result never arrived intact")
+				}
 				if core.MustHold(fn, est)[b] {
 					c.R.Ok(rule, k, c.M.InstrPos(st), "success result built from a work-done message", "on every path the message's output ID was found non-empty")
 				} else {
